@@ -19,7 +19,9 @@ REPLAY_RT_T = {"driver": "replay", "scn": "MC_roundtrip", "args": {"n": 20000, "
 PLANS = {
     "C01": P(
         "model_checking",
-        ["issue.accept", "holder.new", "present.ok", "verify.accept", "verify.view", "verify.claims", "verify.clean",
+        # (issue.exact: the chain issue -> present -> verify cannot succeed on a payload that does not encode the claims; the
+        #  clauses further down the chain are conditional on a well-formed input and would stay silent - seeded W6_3m2)
+        ["issue.accept", "issue.exact", "holder.new", "present.ok", "verify.accept", "verify.view", "verify.claims", "verify.clean",
          "scn.expect.reject", "scn.expect.claims", "scn.model.agrees"],
         [RT, SH],
         [REPLAY_RT_Q, REPLAY_SH, {"driver": "rich", "args": {"n": 700, "depth": 5, "arbsel": 0}}, {"driver": "repotests"}],
